@@ -19,15 +19,15 @@ VARS = ["x", "y", "z", "w", "e", "x_1", "Ab"]
 # arithmetic and the parsed floats can be compared exactly.  Each value comes with several spellings.
 NUMS: List[Tuple[Fraction, List[str], List[str]]] = [
     # value, spellings usable anywhere a number is, spellings usable only as a stand-alone constant
-    (Fraction(2), ["2", "2.", "2.0", "2e0", "(4/2)", "(1*2)", "0.2e1"], ["(2)", "(1+1)", "(3-1)"]),
-    (Fraction(3), ["3", "3.0", "(6/2)", "(1.5*2)", "30e-1"], ["(3)", "(1+2)", "(5-2)"]),
-    (Fraction(1, 2), ["0.5", ".5", "(1/2)", "5e-1", "(2/4)", "0.50"], ["(1-0.5)", "(.25+.25)"]),
-    (Fraction(3, 2), ["1.5", "(3/2)", "(6/4)", "15e-1", "(0.5*3)"], ["(1+0.5)", "(2-.5)"]),
+    (Fraction(2), ["2", "2.", "2.0", "2e0", "(4/2)", "(1*2)", "0.2e1", ".2e1"], ["(2)", "(1+1)", "(3-1)"]),
+    (Fraction(3), ["3", "3.0", "(6/2)", "(1.5*2)", "30e-1", ".3E1"], ["(3)", "(1+2)", "(5-2)"]),
+    (Fraction(1, 2), ["0.5", ".5", "(1/2)", "5e-1", "(2/4)", "0.50", ".5e0", ".05e1"], ["(1-0.5)", "(.25+.25)"]),
+    (Fraction(3, 2), ["1.5", "(3/2)", "(6/4)", "15e-1", "(0.5*3)", ".15e1"], ["(1+0.5)", "(2-.5)"]),
     (Fraction(4), ["4", "4.0", "(2*2)", "(8/2)", "4E0", "(2*2*1)"], ["(2+2)", "(1+1+2)", "(6-2)"]),
-    (Fraction(1, 4), ["0.25", ".25", "(1/4)", "25e-2", "(1/2/2)"], ["(0.5-0.25)"]),
-    (Fraction(10), ["10", "1e1", "1E1", "1e+1", "(5*2)", "10.0"], ["(5+5)", "(12-2)"]),
+    (Fraction(1, 4), ["0.25", ".25", "(1/4)", "25e-2", "(1/2/2)", ".25e0", ".025E+1"], ["(0.5-0.25)"]),
+    (Fraction(10), ["10", "1e1", "1E1", "1e+1", "(5*2)", "10.0", ".1e2", ".1E+2", "100.e-1"], ["(5+5)", "(12-2)"]),
     (Fraction(1), ["1", "1.0", "1.", "(2/2)", "1e0"], ["(1)", "(2-1)", "(0.5+0.5)"]),
-    (Fraction(5, 2), ["2.5", "(5/2)", "(10/4)", "(1.25*2)"], ["(2+.5)", "(3-0.5)"]),
+    (Fraction(5, 2), ["2.5", "(5/2)", "(10/4)", "(1.25*2)", ".25e1", "25.e-1"], ["(2+.5)", "(3-0.5)"]),
     (Fraction(0), ["0", "0.0", "(0/2)", "(0*3)"], ["(0)", "(1-1)"]),
 ]
 
